@@ -330,6 +330,7 @@ const prelude = `(declare-datatypes ((Slice 0)) (((mk-slice (s-obj Int) (s-off I
 (declare-fun sbyte (Int Int) Int)
 (declare-fun allocid (Int) Int)
 (declare-fun kind (Int) Int)
+(declare-fun born (Int) Int)
 (declare-fun bor (Int Int) Int)
 (declare-fun band (Int Int) Int)
 (declare-fun bxor (Int Int) Int)
